@@ -106,6 +106,10 @@ func configs() []cfg {
 	out = append(out, cfg{"A1R+B1r+C9R+D1r", []*pb.PhantomSubnets{mkg(groups[0], 1, true), mkg(groups[1], 1, false), mkg(groups[2], 9, true), mkg(groups[3], 1, false)}, true})
 	out = append(out, cfg{"A1R+B1r+C9R+D1r+E1R", []*pb.PhantomSubnets{mkg(groups[0], 1, true), mkg(groups[1], 1, false), mkg(groups[2], 9, true), mkg(groups[3], 1, false), mkg(groups[4], 1, true)}, true})
 	out = append(out, cfg{"A9R+B9r+C9R+D9r+E9R", []*pb.PhantomSubnets{mkg(groups[0], 9, true), mkg(groups[1], 9, false), mkg(groups[2], 9, true), mkg(groups[3], 9, false), mkg(groups[4], 9, true)}, false})
+	// group weights whose sum does not fit 32 bits (the weight field is a uint32; the published algorithm sums in 64 bits)
+	for _, w := range [][2]uint32{{3000000000, 2000000000}, {4294967295, 1}, {4294967295, 4294967295}} {
+		out = append(out, cfg{fmt.Sprintf("A%dR+D%dr", w[0], w[1]), []*pb.PhantomSubnets{mkg(groups[0], w[0], true), mkg(groups[3], w[1], false)}, true})
+	}
 	return out
 }
 
